@@ -325,11 +325,21 @@ def r01_1_2(ctx, rep):
         pushes = {n for n in P.calls(r"Vec::<T, A>::push$") if is_field(strip_ids(event_args(g, n)[0]), "global_offsets")
                   and has_field(strip_ids(event_args(g, n)[0]), "open")}
 
-        batch_next = {n for n in P.calls(r"iter::Iterator>?::next$") if strip_ids(event_args(g, n)[0]) in (("arg", 2), ("arg", 3))}
+        is_batch = lambda e: e in (("arg", 2), ("arg", 3)) or (contains(e, lambda x: x in (("arg", 2), ("arg", 3)))
+                                                                 and not contains(e, lambda x: x == ("arg", 1)))
+        bounds = element_boundaries(g, P, is_batch)
+        batch_next = {n for n in bounds if g.term(n)["k"] == "call" and cmatch(g.term(n), r"iter::Iterator>?::next$")}
+        batch_enter = bounds - batch_next      # entry of a closure run once per element (try_fold / try_for_each / for_each)
 
         def step(ms, pi, qi, learn):
             j, a, pushed, replaced = ms
             n = P.gnode(pi)
+            if n in batch_enter:
+                if j is False or a is False:
+                    return ("INCOMPLETE", a, pushed, replaced)
+                j, a, pushed, replaced = False, False, False, False   # an element was taken: it must be journalled and applied
+            if j == "INCOMPLETE":
+                return ms
             if n in batch_next:
                 j, a, pushed, replaced = None, None, False, False     # per element of a batch
             if n in pushes:
@@ -346,11 +356,13 @@ def r01_1_2(ctx, rep):
                 if f(pi, qi, learn) == "ok":
                     a = bool(a or j)         # apply counts only after the journal
             return (j, a, pushed, replaced)
-        seen = run_monitor(P, ((None, None, False, False) if batch_next else (False, False, False, False)), step)
+        seen = run_monitor(P, ((None, None, False, False) if bounds else (False, False, False, False)), step)
         bad = None
         for (pi, ms) in seen:
             if P.gnode(pi) in batch_next and (ms[0] is False or ms[1] is False):
                 bad = (pi, ms)         # the previous element of the batch was not journalled + applied
+            if ms[0] == "INCOMPLETE":
+                bad = (pi, ms)
         for (pi, ms0, ms) in finals(P, seen, step):
             if P.gnode(pi) in g.exits and not exit_is_err(P, pi) and not (ms[0] and ms[1]):
                 # admitted no-ops: purge below the purged point; a batch with no (further) element
